@@ -9,6 +9,7 @@ import (
 	"math"
 	"math/big"
 	"math/rand"
+	"reflect"
 	"strings"
 	"time"
 
@@ -530,6 +531,18 @@ func buildFn(id string, env *Env) interface{} {
 	// although Go gives them one and the same code pointer
 	if strings.HasPrefix(id, "mk:") {
 		return makeTagged(strings.TrimPrefix(id, "mk:"))
+	}
+	if strings.HasPrefix(id, "rowfn:") {
+		// host functions over two different struct types that print the same type name: func(val.row) (interface {}, error) twice
+		var sample interface{} = rowA(0, 0, "")
+		if id == "rowfn:B" {
+			sample = rowB(0, 0)
+		}
+		ft := reflect.FuncOf([]reflect.Type{reflect.TypeOf(sample)}, []reflect.Type{reflect.TypeOf((*interface{})(nil)).Elem(), reflect.TypeOf((*error)(nil)).Elem()}, false)
+		return reflect.MakeFunc(ft, func(args []reflect.Value) []reflect.Value {
+			n := int(args[0].FieldByName("Qty").Int()*1000 + args[0].FieldByName("Price").Int())
+			return []reflect.Value{reflect.ValueOf(n), reflect.Zero(reflect.TypeOf((*error)(nil)).Elem())}
+		}).Interface()
 	}
 	if strings.HasPrefix(id, "meth:") {
 		return (&priceTable{tag: strings.TrimPrefix(id, "meth:")}).Get
